@@ -6,15 +6,17 @@ C20 on binary64 numbers — the comparison `filters.py` really computes.
 
 `Model/Filters.lean` carries numbers as sixteenths, where every float operation is exact.  Here a
 number is ANY finite double, given by its exact rational value (`F64.Q`), and the comparison is
-CPython's `math.isclose(old, new, abs_tol=TOLERANCE)` (Modules/mathmodule.c, `math_isclose_impl`):
+CPython's `math.isclose(old, new, rel_tol=…, abs_tol=…)` (Modules/mathmodule.c, `math_isclose_impl`):
 
     if (a == b) return 1;
     diff = fabs(b - a);                                   -- the subtraction ROUNDS (`F64.rne`)
     return diff <= fabs(rel_tol * b) || diff <= fabs(rel_tol * a) || diff <= abs_tol;
 
-with `rel_tol` the default 1e-09 (`Gen.iscloseRelTol*`, read from `inspect.signature(math.isclose)`)
-and `abs_tol` the source's `TOLERANCE` (`Gen.tolerance*`), both as the exact rationals of their
-doubles.  Not representable here and excluded: NaN and the infinities (isclose: NaN is close to
+with `rel_tol` and `abs_tol` the keywords of the call in `filters.py` (`Gen.relTol*`, `Gen.absTolCall*`: read from the source by
+the translator and confirmed by probing `on_change` around the boundary at many magnitudes; an absent `rel_tol` is the default
+1e-09 of `math.isclose`), both as the exact rationals of their doubles.  The model is the formula for WHATEVER the two constants
+are; what they are is pinned in Props/C20F64.lean (`absTol_is_TOLERANCE`) and Props/C20F64Pin.lean (`relTol_is_zero`).
+Not representable here and excluded: NaN and the infinities (isclose: NaN is close to
 nothing, an infinity only to itself), and Python ints too large for a double (`OverflowError`).
 
 The number-only filter machines over doubles: `on_change`, `debounce`, `delta` (difference =
@@ -25,15 +27,15 @@ open F64
 
 abbrev D := Q
 
-def absTol : D := ⟨Gen.toleranceNum, Gen.toleranceDen⟩
-def relTol : D := ⟨Gen.iscloseRelTolNum, Gen.iscloseRelTolDen⟩
+def absTol : D := ⟨Gen.absTolCallNum, Gen.absTolCallDen⟩
+def relTol : D := ⟨Gen.relTolNum, Gen.relTolDen⟩
 
 def fabs (q : D) : D := ⟨q.num.natAbs, q.den⟩
 def neg (q : D) : D := ⟨-q.num, q.den⟩
 /-- float subtraction `a - b` -/
 def fsub (a b : D) : D := rne (a.add (neg b))
 
-/-- `math.isclose(a, b, abs_tol=TOLERANCE)` on finite doubles -/
+/-- `math.isclose(a, b, rel_tol=relTol, abs_tol=absTol)` on finite doubles -/
 def isclose (a b : D) : Bool :=
   a.eqv b ||
     (let diff := fabs (fsub b a)
@@ -44,6 +46,9 @@ def changed (old new : D) : Bool := !isclose old new
 
 /-- the statement's reading on the exact values: the two numbers differ by MORE than the tolerance -/
 def differs (a b : D) : Bool := !(fabs (a.add (neg b))).le absTol
+
+/-- `|fl(new − old)| > abs_tol`: the correctly rounded float difference exceeds the tolerance -/
+def exceeds (old new : D) : Bool := !(fabs (fsub new old)).le absTol
 
 inductive Out where
   | skip
